@@ -272,6 +272,12 @@ int MxEndpoint::create(const EpCfg &c, const sslKeys_t *keys) {
                 matrixSslLoadHelloExtension(ext, sni, (uint32) sniLen, EXT_SNI);
                 vsim_free(sni, __FILE__, __func__, __LINE__);     // allocated by the library through the allocator seam: give it back the same way
             }
+            if (cfg.send_sni >= 2) {
+                // protocol_name_list { "h2", "http/1.1" } (matrixSslCreateALPNext exists only with USE_ALPN; the list entry itself needs nothing compiled in)
+                unsigned char alpn[] = { 0, 12, 2, 'h', '2', 8, 'h', 't', 't', 'p', '/', '1', '.', '1' };
+                matrixSslLoadHelloExtension(ext, alpn, (uint32) sizeof alpn, 16 /* application_layer_protocol_negotiation */);
+            }
+            if (cfg.send_sni >= 3) { unsigned char priv[5] = { 1, 2, 3, 4, 5 }; matrixSslLoadHelloExtension(ext, priv, 5, 0xff77); }
         }
         rc = matrixSslNewClientSession(&ssl, keys, cfg.sid, cfg.suites.empty() ? nullptr : cfg.suites.data(),
                                        (uint8_t) cfg.suites.size(), cb, cfg.expected_name.empty() ? nullptr : cfg.expected_name.c_str(),
@@ -409,7 +415,7 @@ Bytes MxEndpoint::pull(size_t max) {
     int rc = cfg.dtls ? matrixDtlsSentData(ssl, (uint32) take) : matrixSslSentData(ssl, (uint32) take);
     log("SentData", rc, (uint32_t) take, hash_bytes(out.data(), out.size()));
     if (rc == MATRIXSSL_REQUEST_CLOSE) { request_close = true; }
-    else if (rc == MATRIXSSL_HANDSHAKE_COMPLETE) { if (!complete) { complete = true; complete_event = (int) events.size(); } }
+    else if (rc == MATRIXSSL_HANDSHAKE_COMPLETE) { if (!complete) { complete = true; complete_event = (int) events.size(); complete_pending = (long) n - (long) take; } }
     else if (rc < 0) { if (!got_error) { got_error = true; first_error = rc; if (!(got_fatal_alert || got_close_notify || request_close)) { first_error_alive = rc; } } }
     if (rc != MATRIXSSL_REQUEST_SEND && take == (size_t) n) { wants_send = false; }
     if (on_api) { on_api(*this, "SentData"); }
